@@ -4,6 +4,7 @@ import Driver.Mux
 import Driver.Store
 import Driver.Codec
 import Driver.Compress
+import Driver.Csv
 open Lean Drv
 
 def dispatch (cmd : String) (j : Json) : Except String Json :=
@@ -22,6 +23,8 @@ def dispatch (cmd : String) (j : Json) : Except String Json :=
   | "encode" => cmdEncode j
   | "decode" => cmdDecode j
   | "z_wrap" => cmdZWrap j
+  | "csv_dump" => cmdCsvDump j
+  | "csv_parse" => cmdCsvParse j
   | _ => throw "bad-case"
 
 def handleLine (line : String) : String :=
